@@ -320,3 +320,10 @@ def run(chk):
                              key='C16-T|%s|global' % fq)
     chk.assume('socketserver closes the request when handle() raises (undecodable bytes); TCP delivery order and thread '
                'scheduling are outside the program text')
+
+    chk.rule('C16-D', 'decision structure of the functions this property is anchored in: every effect statement (store, call, return, '
+                   'raise) runs under the same combinations of the function\'s elementary tests as in the reviewed tree, and none '
+                   'was deleted (reference/decisions.json; compared by meaning, rewritten functions are not compared)')
+    from . import guardrules as _gr
+    nd2_ = _gr.check_decisions(chk, c, 'C16-D', lambda fq_: fq_.startswith(('mllp.',)))
+    chk.floor('functions compared with the decision reference (C16-D)', nd2_, 1)
